@@ -151,8 +151,10 @@ def affine : Expr → Bool
   | .un k c =>
     match k with
     | .erase => false                          -- default: blocking (maybe) ≠ always_inline
-    | _ => affine c                            -- then.hpp:162, unstoppable.hpp:53, with_query_value.hpp:141,
-                                               -- dematerialize.hpp:180 ∘ materialize.hpp:195, let_done.hpp:293 (∧ just)
+    | .withSched _ => false                    -- with_query_value.hpp: CPO is get_scheduler ⇒ false (the child is
+                                               -- affine to the REPLACED scheduler, not to the receiver's)
+    | _ => affine c                            -- then.hpp:162, unstoppable.hpp:53,
+                                               -- dematerialize.hpp ∘ materialize.hpp:195, let_done.hpp:293 (∧ just)
   | .bin _ a b => affine a && affine b         -- let_value.hpp:394, sequence.hpp:291, finally.hpp:646,
                                                -- when_all.hpp:345, stop_when.hpp:333
 
@@ -170,7 +172,8 @@ def sendsDone : Expr → Bool
     | .unstoppable => sendsDone c              -- unstoppable.hpp:49
     | .withSched _ => sendsDone c              -- with_query_value.hpp:137
     | .erase => true                           -- any_sender_of.hpp:255
-    | .matDemat => false                       -- dematerialize.hpp:176 (= its source's) of materialize.hpp:191 (false)
+    | .matDemat => sendsDone c                 -- dematerialize.hpp: source's flag (materialize.hpp: false) OR
+                                               -- materializes_done<Source> = materialize.hpp `materializes_done` = c's flag
     | .doneAsOpt _ => false                    -- let_done.hpp:286 (= final sender's) of just (false)
   | .bin k a b =>
     match k with
